@@ -105,6 +105,10 @@ impl ConnectionValidator {
     }
 
     fn hash(&mut self, elapsed: [u8; 4], ip_addr: IpAddr) -> [u8; 4] {
+        #[cfg(all(greatest_ape_aquatic_verif, kani))]
+        if verif_harness::uf_enabled() {
+            return verif_harness::uf_hash(self, elapsed, ip_addr);
+        }
         self.keyed_hasher.update(&elapsed);
 
         match ip_addr {
@@ -120,6 +124,10 @@ impl ConnectionValidator {
         hash
     }
 }
+
+#[cfg(all(greatest_ape_aquatic_verif, kani))]
+#[path = "/verif/harness/in_udp_validator.rs"]
+pub mod verif_harness;
 
 #[cfg(test)]
 mod tests {
